@@ -80,6 +80,35 @@ def pongs_of(sc):
     return out
 
 
+def stall_scenarios(ctx):
+    """the ping thread is descheduled right after a ping has been written (for longer than the pong latency): a
+    responsive peer must still never be reported.  Oracle only (the model has no such schedule element)."""
+    scs = []
+    for iv, to in ((2 * TPS, TPS), (3 * TPS, 2 * TPS), (5 * TPS, 2 * TPS)):
+        for lat, stall in ((1, 8), (16, 64), (to // 2, to // 2 + 8)):
+            for occ in (0, 1):
+                sc = ka_scenario(iv, to, [lat] * (occ + 1), npings=occ + 1)
+                sc["stall_after_send"] = [occ, stall]
+                sc["horizon"] = (occ + 2) * iv + stall + 2 * to + 64
+                sc["kind"] = "ka-stall"
+                sc["tag"] += f":stall-after-send#{occ}={stall}"
+                scs.append(sc)
+    return scs
+
+
+def run_stall(ctx):
+    scs = stall_scenarios(ctx)
+    real = appcheck.run_real_many(scs)
+    for sc, r in zip(scs, real):
+        pings, pls, rep = observe(r["trace"])
+        ctx.case(key=sc["tag"], nontrivial=True, cls="ka-stall:" + ("reported" if rep is not None else "quiet"),
+                 sample={"scenario": sc, "pings": pings, "report": rep} if rep is not None else None)
+        if rep is not None:
+            ctx.violate("no-false-positive", "reported-although-every-ping-was-answered@ping-thread-descheduled-after-write", sc,
+                        "a peer that answers every ping within the timeout is never reported",
+                        f"pings={pings} pongs={pongs_of(sc)} report={rep} (iv={sc['iv']}, to={sc['to']})", size=appcheck.size_of(sc))
+
+
 def run_keepalive(ctx, scs):
     if not scs:
         return
@@ -94,6 +123,8 @@ def run_keepalive(ctx, scs):
     out = common.run_driver_parallel(lines)
     n = len(scs)
     for i, (sc, r) in enumerate(zip(scs, real)):
+        if r["abort"] == "skipped":
+            continue
         m_app, m_ka, verdict = out[i], out[n + i], out[2 * n + i]
         pings, pls, rep = obs[i]
         size = appcheck.size_of(sc)
@@ -115,6 +146,10 @@ def run_keepalive(ctx, scs):
         elif verdict != "ok":
             for v in verdict.split(" "):
                 clause, cause = v.split(":", 1)
+                if clause == "detect":
+                    # F12 lives in to < iv <= 2*to (C16_detect_partial proves iv > 2*to); the regime is part of the signature
+                    cause += "@iv<=2to" if sc["iv"] <= 2 * sc["to"] else "@iv>2to"
+                    cause += "@with-data-traffic" if any(e[2] not in ("q",) for run in sc["runs"] for c_ in run if len(c_) > 1 for e in c_[1]) else "@no-data-traffic"
                 ctx.violate(clause, cause, sc, "Spec.Keepalive clause holds",
                             f"{v}: pings={pings} pongs={pongs_of(sc)} report={rep} (iv={sc['iv']}, to={sc['to']})", size=size)
         # pings stop when the connection is reported dead
@@ -238,11 +273,12 @@ def run(ctx):
     ctx.rule = ("validation grid 11 x 11 (negative, zero, None, fractional); accepted (iv, to) in {1..6}x{1..5} s with pong "
                 "latency patterns {1 tick, to-1, to, to+1, never}^2 (thorough ^3), data frames at critical instants, tie "
                 "orders; late unsolicited pongs; silent-from-ping-k; random fractional settings; connection end and "
-                "reconnect with keepalive on (non-trivial = at least one ping was sent)")
+                "reconnect with keepalive on; the ping thread descheduled right after a ping was written (oracle only) (non-trivial = at least one ping was sent)")
     run_args(ctx)
     for d in appcheck.corpus("C16"):
         run_keepalive(ctx, [d["input"]])
     run_keepalive(ctx, scenarios(ctx))
+    run_stall(ctx)
     lifecycle(ctx)
 
 
